@@ -624,10 +624,12 @@ class TOC(object):
     def create(cls, storage, schema, indexname=_DEF_INDEX_NAME):
         schema = ensure_schema(schema)
 
-        # Clear existing files
-        prefix = "_%s_" % indexname
-        for filename in storage:
-            if filename.startswith(prefix):
+        # Clear existing files: the TOC files of this index (also temporary
+        # ones, "_name_N.toc.xxx"), not those of an index whose name merely
+        # begins with this one's ("_name_other_N.toc")
+        pattern = re.compile("^_%s_[0-9]+[.]toc" % re.escape(indexname))
+        for filename in list(storage):
+            if pattern.match(filename):
                 storage.delete_file(filename)
 
         # Write a TOC file with an empty list of segments
